@@ -8,7 +8,7 @@ from scoda.tokenisation.notelike_tokenisation import MultiTrackLargeVocabularyNo
 
 META = {
     "bounds": {
-        "quick": "configurations: all 16 flag combinations x velocity_bins {1,2,5} x num_tracks {1,2} x pitch range (60,62) with the "
+        "quick": "configurations: all 16 flag combinations x velocity_bins {1,2,5} (+ 64 and 80, where bin values saturate at 127) x num_tracks {1,2} x pitch range (60,62) with the "
                  "default note values and step sizes (+ note values [6,12,24] for 4 flag combinations); vocabulary side: a symbolic id "
                  "over the whole vocabulary of every configuration (solver-driven enumeration, complete); emission side: one symbolic "
                  "note (pitch in range, duration a symbolic member of the note values, velocity 1..127 merged per bin), a second note "
@@ -179,6 +179,9 @@ def configs(tier):
                 cs.append((fl, bins, ntr, (60, 62), None))
     for fl in (FLAGS[0], FLAGS[5], FLAGS[10], FLAGS[15]):
         cs.append((fl, 2, 1, (60, 61), (6, 12, 24)))
+    # many bins: the bin values saturate at 127 (several bins share one value)
+    cs.append((FLAGS[0], 64, 1, (60, 60), (12,)))
+    cs.append((FLAGS[7], 80, 1, (60, 60), (12,)))
     if tier == "thorough":
         for fl in (FLAGS[0], FLAGS[7], FLAGS[8], FLAGS[15]):
             cs.append((fl, 2, 1, (21, 108), None))
